@@ -21,6 +21,9 @@ pub struct Corpus {
     /// valid encodings at the edges of the range: the largest valid s below q
     /// (top limb equal to the modulus' top limb) and the smallest ones above 0
     pub boundary_valid: Vec<[u8; 32]>,
+    /// strings whose top 64-bit limb equals the modulus' top limb: valid encodings in that band, and
+    /// aliases s + q of small valid s (non-canonical, but a limb-wise range check may let them through)
+    pub band: Vec<[u8; 32]>,
 }
 
 fn arr32(v: &[u8]) -> [u8; 32] {
@@ -83,10 +86,47 @@ impl Corpus {
         for b in &boundary_valid {
             valid.push(*b);
         }
+        let mut band = Vec::new();
+        let top = &f.p >> 192usize;
+        let mut found_valid = 0;
+        let mut found_alias = 0;
+        while found_valid < 6 || found_alias < 6 {
+            let low = Fld::int_le(&rng.bytes(24));
+            // (a) top limb of q, random lower limbs: canonical iff below q
+            let x = (&top << 192usize) + &low;
+            if found_valid < 6 && x < f.p && !x.bit(0) && rd::decode_s(&x).is_ok() {
+                band.push(arr32(&f.to_le(&x)));
+                valid.push(arr32(&f.to_le(&x)));
+                found_valid += 1;
+            }
+            // (b) small valid s and its alias s + q (top limb stays q's)
+            let small = &low >> 8usize;
+            if found_alias < 6 && !small.bit(0) && rd::decode_s(&small).is_ok() {
+                let alias = &small + &f.p;
+                let mut v = alias.to_bytes_le();
+                v.resize(32, 0);
+                band.push(arr32(&v));
+                found_alias += 1;
+            }
+        }
+        // fixed structured members: q +- 2^64 +- small, q +- 2^128 +- small
+        for sh in [64usize, 128] {
+            for d in [0u32, 1, 2, 3] {
+                for plus in [true, false] {
+                    let base = if plus { &f.p + (BigUint::from(1u32) << sh) } else { &f.p - (BigUint::from(1u32) << sh) };
+                    for x in [&base + d, &base - d] {
+                        let mut v = x.to_bytes_le();
+                        v.resize(32, 0);
+                        band.push(arr32(&v));
+                    }
+                }
+            }
+        }
         Corpus {
             valid,
             nonsquare,
             boundary_valid,
+            band,
         }
     }
 }
@@ -137,6 +177,7 @@ pub fn near_miss(rng: &mut Rng, c: &Corpus) -> [u8; 32] {
             le32(&(&s + 1u32))
         }
         17 => le32(&(q - 2u32)),
+        18 => Some(c.band[rng.usize_below(c.band.len())]),
         _ => Some(rng.array32()),
     };
     cand.unwrap_or_else(|| rng.array32())
@@ -344,7 +385,9 @@ pub fn pool_op(rng: &mut Rng, c: &Corpus, sw: &Swarm, n: usize, focus: &str) -> 
         },
         1 => EOp::Decode(hex(&pick_valid(rng, c))),
         2 => {
-            if rng.chance(1, 4) {
+            if rng.chance(1, 8) {
+                EOp::Hash2Related(fq_input_hex(rng), rng.chance(1, 2))
+            } else if rng.chance(1, 4) {
                 EOp::Hash2(fq_input_hex(rng), fq_input_hex(rng))
             } else {
                 EOp::Elligator(fq_input_hex(rng))
@@ -390,7 +433,12 @@ pub fn pool_op(rng: &mut Rng, c: &Corpus, sw: &Swarm, n: usize, focus: &str) -> 
                 4 => EOp::AffineMulFr(idx(rng, n), scalar_hex(rng)),
                 5 => EOp::AddAffine(idx(rng, n), idx(rng, n)),
                 6 => EOp::IntoGroup(idx(rng, n)),
-                _ => EOp::IntoAffine(idx(rng, n)),
+                _ => match rng.below(4) {
+                    0 => EOp::AddOtherRep(idx(rng, n)),
+                    1 => EOp::AddDecoded(idx(rng, n)),
+                    2 => EOp::ZeroizedCopyEncoded(idx(rng, n)),
+                    _ => EOp::IntoAffine(idx(rng, n)),
+                },
             },
         },
         5 => match rng.below(4) {
@@ -457,7 +505,26 @@ pub fn field_op(rng: &mut Rng, n: usize) -> FieldOp {
                 _ => rng.usize_below(201),
             };
             let mut b = rng.bytes(l);
-            match rng.below(5) {
+            match rng.below(7) {
+                5 => {
+                    // an aligned all-zero chunk below non-zero data (chunked reductions must keep its weight)
+                    let n = f.nbytes;
+                    if l > n {
+                        let k = rng.usize_below(l / n);
+                        for x in b.iter_mut().skip(k * n).take(n) {
+                            *x = 0;
+                        }
+                    }
+                }
+                6 => {
+                    // 2^(8*k*nbytes): a single 1 right above k zero chunks
+                    b.iter_mut().for_each(|x| *x = 0);
+                    let n = f.nbytes;
+                    if l > n {
+                        let k = 1 + rng.usize_below((l - 1) / n);
+                        b[k * n] = 1;
+                    }
+                }
                 0 => b.iter_mut().for_each(|x| *x = 0xff),
                 1 => {
                     let pb = f.p.to_bytes_le();
